@@ -40,3 +40,20 @@ Theorem C04_sequence_execution_is_lz77 : forall fuel x off ml, sinv x -> 1 <= of
   x_hist (copy_match fuel x off ml) = copy_naive (N.to_nat ml) (N.to_nat off) (x_hist x).
 Proof. exact copy_match_spec. Qed.
 Print Assumptions C04_sequence_execution_is_lz77.
+
+(* several frames back to back, skippable frames in between: what the specification makes of a stream is the concatenation
+   of what it makes of its frames (ZSTD_decompress semantics); a skippable frame contributes nothing *)
+From ZV.Codec Require Import Encode MultiFrameProofs.
+Theorem C04_frame_then_stream : forall cfg d f rest out t c items,
+  f <> [] -> decode_frame cfg d (f ++ rest) = Ok (out, t, rest) -> skip_test cfg (f ++ rest) = None ->
+  R cfg d rest = Ok (c, items) ->
+  R cfg d (f ++ rest) = Ok (out ++ c, FZstd t (lenN out) :: items).
+Proof. exact R_frame_then_stream. Qed.
+Print Assumptions C04_frame_then_stream.
+
+Theorem C04_skippable_frame_then_stream : forall cfg d variant payload rest c items,
+  c_magicless cfg = false -> variant < 16 -> lenN payload < 2 ^ 32 ->
+  R cfg d rest = Ok (c, items) ->
+  R cfg d (enc_skippable variant payload ++ rest) = Ok (c, FSkip (lenN payload) :: items).
+Proof. exact R_skippable_then_stream. Qed.
+Print Assumptions C04_skippable_frame_then_stream.
